@@ -368,3 +368,18 @@ theorem reachBy_gap (N : Nat) (hN : 0 < N) :
               rw [pow_succ]; ring
 
 end Infretis.Lattice
+
+namespace Infretis.Lattice
+
+/-! ### resampling from the conditional (the ∞-swap step) -/
+
+/-- plain list sum -/
+def lsum : List Rat → Rat
+  | [] => 0
+  | x :: t => x + lsum t
+
+theorem lsum_map_mul_right (c : Rat) : ∀ ws : List Rat, lsum (ws.map (fun w => w * c)) = lsum ws * c
+  | [] => by simp [lsum]
+  | x :: t => by simp only [List.map_cons, lsum, lsum_map_mul_right c t]; ring
+
+end Infretis.Lattice
